@@ -121,9 +121,12 @@ def grep_forbidden():
 
 
 def prop_modules(prop):
-    """Props/<prop>.lean and, when present, its continuation Props/<prop>Session.lean (whole-session theorems that need lemma
-    files which themselves import Props/<prop>.lean)"""
-    return [m for m in (prop, prop + "Session") if os.path.exists(os.path.join(LEAN, "IodineModel", "Props", m + ".lean"))]
+    """Props/<prop>.lean and its continuations Props/<prop><suffix>.lean (e.g. C10Session, C10Session2, C02b: theorems that need lemma
+    files which themselves import Props/<prop>.lean), the main file first"""
+    d = os.path.join(LEAN, "IodineModel", "Props")
+    mods = sorted(os.path.basename(f)[:-5] for f in glob.glob(os.path.join(d, prop + "*.lean")))
+    mods = [m for m in mods if re.fullmatch(re.escape(prop) + r"[A-Za-z][A-Za-z0-9]*|" + re.escape(prop), m)]
+    return sorted(mods, key=lambda m: (m != prop, m))
 
 
 def prop_theorems(prop):
